@@ -82,9 +82,26 @@ def run_local(op, script, payload, root, persistent=False):
     with vclock.virtual() as clk:
         try:
             if op == 'upload_stream':
-                src = FaultyReader(payload, script if not persistent else [(a, 0, 'io') for a in range(1, 200)])
-                be.upload_stream(name, wrap_reader(src), len(payload), CHUNK)
-                out['calls'] = src.raised + 1
+                # positions 0..2: the read of that stream chunk fails; position 3 ("after the last chunk"): the atomic replace fails
+                rs = [(a, p_, k_) for a, p_, k_ in script if p_ < 3]
+                renames = {a for a, p_, k_ in script if p_ >= 3}
+                src = FaultyReader(payload, rs if not persistent else [(a, 0, 'io') for a in range(1, 200)])
+                real = Path.replace
+                state = {'calls': 0}
+
+                def flaky(self, target):
+                    # the attempt number = failures so far + 1
+                    att = src.raised + state['calls'] + 1
+                    if att in renames:
+                        state['calls'] += 1
+                        raise OSError('fault script: replace failed')
+                    return real(self, target)
+                Path.replace = flaky
+                try:
+                    be.upload_stream(name, wrap_reader(src), len(payload), CHUNK)
+                finally:
+                    Path.replace = real
+                out['calls'] = src.raised + state['calls'] + 1
             elif op == 'download_stream':
                 be.upload(name, payload)
                 tgt = FaultyWriter(script if not persistent else [(a, 0, 'io') for a in range(1, 200)])
